@@ -672,15 +672,23 @@ def byte_order(F, R, E, fns, src):
             "local_entry->destination_ipv4": NET, "local_entry->destination_port": NET, "local_port": HOST}
     # C writer side
     cw = {}
-    for fname in ("authorize_v4", "trace_v4", "update_local_map_entry", "update_audit_map_entry_sk"):
-        fn = fns.get(fname)
-        if not fn:
-            continue
+    # what each helper parameter stands for at its call sites (a key built in a lookup helper from `ipv4`, `port` arguments)
+    argsof = {}
+    for fname, fn in fns.items():
+        for n in walk(fn):
+            if n.get("kind") == "CallExpr":
+                callee = strip(n["inner"][0]).get("ref")
+                if callee in fns:
+                    params = [c.get("name") for c in fns[callee].get("inner", []) if c.get("kind") == "ParmVarDecl"]
+                    for pn, a in zip(params, n["inner"][1:]):
+                        argsof.setdefault((callee, pn), set()).add(expr_str(a))
+    for fname, fn in fns.items():
         for n in walk(fn):
             if n.get("kind") == "BinaryOperator" and n.get("opcode") == "=":
                 lhs, rhs = expr_str(n["inner"][0]), expr_str(n["inner"][1])
-                if rhs in csrc:
-                    cw.setdefault(lhs.split(".", 1)[-1].split("->")[-1], set()).add(csrc[rhs])
+                for rv in argsof.get((fname, rhs), {rhs}):
+                    if rv in csrc:
+                        cw.setdefault(lhs.split(".", 1)[-1].split("->")[-1], set()).add(csrc[rv])
     R.tables["C06.c_writer_tags"] = {k: sorted(v) for k, v in cw.items()}
     for fld in ("destination_port", "destination_ipv4", "source_port", "destination_ip.ipv4"):
         tags = cw.get(fld, set())
